@@ -105,8 +105,7 @@ def tlc(module, cfg, env=None, workers=8, extra=None, timeout=1800, name=None, j
     if os.path.exists(trace):
         os.remove(trace)
     cmd = ["java", "-XX:+UseParallelGC"]
-    if heap:
-        cmd.append("-Xmx" + heap)
+    cmd.append("-Xmx" + (heap or "8g"))
     cmd += java_opts.split()
     cmd += ["-cp", TLA_JAR, "tlc2.TLC", "-workers", str(workers), "-metadir", meta, "-cleanup",
             "-noGenerateSpecTE", "-dumpTrace", "json", trace, "-config", cfg]
